@@ -1146,6 +1146,25 @@ static int parse_set(vnacal_load_state_t *vlsp, yaml_node_t *node)
 		vcp->vc_filename, node->start_mark.line + 1);
 	return -1;
     }
+
+    /*
+     * Validate the dimensions as vnacal_new_alloc does; the bound
+     * keeps the term counts of _vnacal_layout within an int.
+     */
+    if (rows < 1 || columns < 1 || rows > 10000 || columns > 10000) {
+	_vnacal_error(vcp, VNAERR_SYNTAX,
+		"%s (line %ld) error: invalid calibration dimensions %d x %d",
+		vcp->vc_filename, node->start_mark.line + 1, rows, columns);
+	return -1;
+    }
+    if (VNACAL_IS_T(type) ? rows > columns : rows < columns) {
+	_vnacal_error(vcp, VNAERR_SYNTAX,
+		"%s (line %ld) error: dimensions %d x %d are invalid "
+		"for type %s",
+		vcp->vc_filename, node->start_mark.line + 1, rows, columns,
+		vnacal_type_to_name(type));
+	return -1;
+    }
     _vnacal_layout(&vl, type, rows, columns);
     if ((calp = _vnacal_calibration_alloc(vcp, type, rows, columns,
 		    frequencies, VL_ERROR_TERMS(&vl))) == NULL) {
